@@ -12,3 +12,23 @@ CLAIMED = {
          "note": "trusts clang's AST, the ORD evaluator (fails closed on unsupported constructs) and that sort keys are not NaN"},
 }
 NOT_APPLICABLE = {}
+CLAIMED.update({
+ "C01": {"engine": "ORD + INV + boolfun", "technique": "static analysis: exhaustive order abstraction, who-writes inventories, dominance and call-site value rules",
+         "text": "Decides for all times/priorities/handles that the event comparator is the stated strict total order; that handles are issued increasingly; that the clock has three writers and is set unconditionally from the dequeued entry; that every caller-supplied time is dominated by a release assertion against the clock; that the dispatcher executes each dequeued event exactly once; that the current-event slot is written only by the dequeue; that reschedule/reprioritise keep the other key; and that the pattern predicates of find/count/cancel have the specified truth table. Heap index arithmetic is not decided.",
+         "note": "trusts clang's AST and the evaluators (fail closed); NaN keys excluded"},
+ "C05": {"engine": "REGION (FLOW)", "technique": "static analysis: atomic-region dataflow (nullness + typestate) between yield points",
+         "text": "Cooperative scheduling makes yield-free regions atomic; the check shows that every store of a non-NULL holder happens in a configuration where the holder is known NULL in the same region, for every path of every root function, which by induction over regions gives mutual exclusion for all programs and schedules. Also decides holder/tag pairing and that the queries are functions of the holder alone.",
+         "note": "assumes user callbacks do not yield or modify library objects inside library regions; may-yield from the resolved call graph"},
+ "C08": {"engine": "REGION (FLOW)", "technique": "static analysis: atomic-region must-follow dataflow with a guard/direction table derived from the demand functions",
+         "text": "For every path of every function of the five guard-based classes: an availability increase is followed by a signal on the guard it can satisfy before the region ends; every wait re-tests in a loop; a waiter leaving for another reason dequeues itself, withdraws a pending grant and passes it on; unwinding removes a process from its guard.",
+         "note": "demand predicates of the built-in classes are cross-checked against the table on every run; user predicates are out of scope"},
+ "C14": {"engine": "REGION (FLOW) + INV", "technique": "static analysis: atomic-region must-record dataflow + value rules on the sampler and the time series",
+         "text": "For every path of every function of the five classes a change of the recorded quantity is followed by a history sample before the region ends (or the quantity is provably back at its last sampled value); samplers record the state expression at the current time; start/stop ordering; the time series stores elapsed time as the previous sample's weight and the summary uses all but the last sample.",
+         "note": "numerical value of the weighted mean is not decided"},
+})
+ENGINES += [
+ {"name": "FLOW/REGION", "path": "sa/engines/flow.py, sa/engines/region.py", "serves_properties": ["C05", "C08", "C14"],
+  "kind_free_text": "structured abstract interpreter over the AST with a bounded disjunction of configurations, flow-sensitive value strings, inlining of static helpers; resource-class domain tracks nullness, owed signals and owed samples per atomic region"},
+ {"name": "INV", "path": "sa/inv.py, sa/vals.py", "serves_properties": ["C01", "C05", "C06", "C14"],
+  "kind_free_text": "who-writes / who-calls inventories, statement dominance, value canonicalisation"},
+]
